@@ -928,6 +928,9 @@ func (c *Ctx) modularCall(st *State, call *ast.CallExpr, fn *types.Func, ct *Fun
 			if strings.Contains(err.Error(), "unknown identifier") && !ct.Extern {
 				// a postcondition stated over the callee's locals is checked on the callee only
 				c.note(fmt.Sprintf("ensures %d of %s mentions callee locals: not assumed at call sites", i+1, shortKey(fn)))
+				// (if the identifier is simply gone — a renamed parameter — the caller has lost a fact it relied on:
+				// what fails afterwards on this path is "the callee's contract does not bind", not a verdict)
+				st.taint = append(st.taint, fmt.Sprintf("ensures %d of %s (%v)", i+1, fn.FullName(), err))
 				continue
 			}
 			c.abort("contract of %s: ensures %d: %v", fn.FullName(), i+1, err)
